@@ -164,6 +164,38 @@ def frame_jobs(tier, tags, ub, timeout, quick_subset):
                  ['Theo::gen', 'GenState::pushSymbols', 'GenState::popSymbols', 'GenState::backpatch', 'GenState::emit'])]
 
 
+ERR_SINK = {'_ZN8GenState3errEN4Theo13CodegenResult5Error4TypeESt6string': 'stub_err8'}
+LOWER_TAGS = ['C01', 'C03', 'C16']      # the assertions of part 8 carry the id of the property they serve; each property counts its own
+# quick: the counts of the pre-state are constants of the build (2 instructions, 1 label, 1 pending jump, 2 registers), contents symbolic;
+# thorough: counts symbolic within 1..3 instructions, 0..2 labels, 0..2 pending jumps, 0..3 registers
+LOWER_FIXED = dict(G8_N0=2, G8_N0_LO=2, G8_NL=1, G8_NL_LO=1, G8_NT=1, G8_NT_LO=1, G8_REGS=2, G8_REGS_LO=2)
+LOWER_CAPS = dict(MINISTL_STR_CAP=24, MINISTL_VEC_CAP=3, GR_CODE=12, GR_INT=6, GR_REGS=7)
+
+
+@family('lowering')
+def lowering_jobs(tier, tags, ub, timeout, quick_subset):
+    kw = dict(LOWER_CAPS)
+    if tier == 'quick': kw.update(LOWER_FIXED)
+    return [_job('h_assign', _defs(8, **kw), _stubs(), SOLVER, 8, tags, ub, timeout,
+                 'real dispatchAssign + dispatchValue on x := y / x := <literal> from an arbitrary generator state: exactly one instruction, ADD(reg x, reg y, 0) / CONST(reg x, value); x and an undeclared y get variable registers '
+                 '(appended, never temporaries), known names keep their registers; operands below the register count; earlier code, labels, pending jumps, loop count, existing registers untouched; Inv_reg preserved',
+                 'x, y in {a, b, c} (x = y allowed), literal of 1..3 digits; register file satisfying Inv_reg with variables named a, b, c or counters of earlier loops; code / labels / pending jumps satisfying Inv_lab; '
+                 + ('counts fixed: 2 instructions, 1 label, 1 pending jump, 2 registers' if tier == 'quick' else 'counts symbolic: 1..3 instructions, 0..2 labels, 0..2 pending jumps, 0..3 registers, 0..8 loops'),
+                 ['dispatchAssign', 'dispatchValue', 'FunctionGenState::fetchVariableRegister', 'GenState::emit'])]
+
+
+@family('lowering_loops')
+def lowering_loop_jobs(tier, tags, ub, timeout, quick_subset):
+    """h_loop / h_while (real dispatchLoop / dispatchWhile, children replaced by contract stubs, then the real backpatch()): all claim assertions hold on
+    the unchanged tree, but the query needs about 1700 s and 8 GB per entry (symbolic execution dominates), so the family is in no plan yet"""
+    return [_job(e, _defs(8, **LOWER_CAPS), _stubs(ERR_SINK, {R_VALUE: 'stub_value8', DISPATCH_VOID: 'stub_body8'}), SOLVER, 8, tags, ub, max(timeout, 3000), a,
+                 'pre-state: 1..3 instructions, 0..2 labels, 0..2 pending jumps (Inv_lab), 0..3 registers (Inv_reg), loop number 0..8; value stub 0..2 non-jump instructions + optional variable; body stub 0..2 instructions, '
+                 'optional temporary, optional jump with new / existing label, optional nested loop', ['dispatchLoop', 'dispatchWhile', 'GenState::backpatch', 'GenState::createLabel', 'GenState::setLabel', 'GenState::emitBackpatched',
+                 'FunctionGenState::fetchTemporary', 'FunctionGenState::releaseTemporary', 'FunctionGenState::fetchVariableRegister'])
+            for e, a in [('h_loop', 'LOOP: value once into the private counter (variable register, hidden name with loop number, never a temporary), JMPC, body, ADD -1, JMP; jump targets after backpatch()'),
+                         ('h_while', 'WHILE: condition between start label and JMPC, re-evaluated by the back jump; exit to the position after the back jump; condition temporary live in the body, released once afterwards')]]
+
+
 SHAPE_ENTRIES = [('h_shape_assign', 'x := <digit>', True), ('h_shape_seq', 'x := y; (next line) y := <digit>', True), ('h_shape_unknown_mark', 'GOTO l (never set): 2 errors', True),
                  ('h_shape_sugar', 'x := y + 7; x := x - 7 (RUN __INC__/__DEC__ WITH .., .. END from __standards__)', True),
                  ('h_shape_jumps', 'l: x := 7; IF x = 0 THEN GOTO l; GOTO l over three lines', False), ('h_shape_while', 'WHILE x != 0 DO x := 7 END; STOP', False),
@@ -347,7 +379,8 @@ def obligations(prop, tier, seed, wd, out):
     facts, problems = funcaddrs_frame_check(fw.REPO)
     for p in problems:
         out.inconclusive.append('premise of the no-recursion induction not confirmed on the text of gen.cpp: ' + p)
-    plan = [('program', ['h_program_noports', 'h_program_1out', 'h_program_2']), ('call', ['h_call_0', 'h_call_2nc'])]
+    plan = [('program', ['h_program_noports', 'h_program_1out', 'h_program_2']), ('call', ['h_call_0', 'h_call_2nc'])]     # (+ ('lowering_loops', None) once h_loop is affordable: its C16 assertions state the privacy of the LOOP counter; h_assign carries no C16 assertion)
+    if tier == 'thorough': plan.append(('lowering_loops', None))     # h_loop / h_while: about 1700 s and 8 GB each, thorough tier only
     jobs = _run(prop, tier, wd, out, plan)
     return {'gen_obligations': len(jobs), 'gen_frame_check': facts, 'gen_model_notes': MODEL_NOTES,
             'gen_induction': 'Inv_fa: every entry of funcAddrs is the start of a routine whose RET is already emitted (entry <= RET index < code size). Established by dispatchProgram (recorded only after RET; the table is '
@@ -358,13 +391,20 @@ def obligations(prop, tier, seed, wd, out):
 def wf_emit_obligations(prop, tier, seed, wd, out):
     """C03 (ii): the generator emits well-formed call sequences, frames, stack maps, jumps and register indices"""
     plan = [('regs', None), ('call', ['h_call_0', 'h_call_1c', 'h_call_2nn', 'h_call_2cn']), ('program', ['h_program_noports', 'h_program_1', 'h_program_2out']),
-            ('labels', ['h_labels_fwd', 'h_labels_back']), ('void', ['harness_void_assign', 'harness_void_loop', 'harness_void_while', 'harness_void_jumps', 'harness_void_program']), ('frame', None)]
+            ('labels', ['h_labels_fwd', 'h_labels_back']), ('void', ['harness_void_assign', 'harness_void_loop', 'harness_void_while', 'harness_void_jumps', 'harness_void_program']), ('frame', None), ('lowering', None)]
     jobs = _run(prop, tier, wd, out, plan)
     return {'gen_obligations': len(jobs), 'gen_model_notes': MODEL_NOTES,
             'gen_wf_argument': 'call sequences: PREPARE(count = recorded frame size, index = recorded stack map, target), ARG k = 0..n-1 with k < argnum <= frame size, EXEC(recorded entry), contiguous (h_call_*); '
                                'recorded frame size = final register count, RET register and stack map keys below it, entry right after the JMP over the routine, JMP listed and its label set (h_program_*); every JMP/JMPC of GOTO, IF, '
                                'LOOP, WHILE is listed and patched to the recorded position inside its routine, every created label is set or reported (h_labels_*, harness_void_loop/while/jumps); register indices are below the size '
                                'of the register file, which never shrinks (h_regs_*); gen() patches the root PREPARE, appends HALT and runs backpatch (h_gen_frame)'}
+
+
+def lowering_obligations(prop, tier, seed, wd, out):
+    """C01: the lowering of assignment (and, once affordable, LOOP / WHILE: family lowering_loops) from an arbitrary generator state"""
+    jobs = _run(prop, tier, wd, out, [('lowering', None)] + ([('lowering_loops', None)] if tier == 'thorough' else []))
+    return {'gen_obligations': len(jobs), 'gen_model_notes': MODEL_NOTES,
+            'gen_lowering': 'x := y / x := c from any generator state satisfying Inv_reg and Inv_lab: one instruction writing the variable register of x from the variable register of y / the constant, nothing else changes (h_assign)'}
 
 
 def c02_jobs(prop, tier, wd):
